@@ -30,3 +30,16 @@ def c04_leaf_retype(f, replay):
         return False
     leaf = _leaf_type(replay.get("schema"), content[0]["type"])
     return leaf is True or (leaf is None and st.get("to", 0) - st.get("from", 0) == 2)
+
+
+def c03_touching_empty_gap(f, replay):
+    """C03 open finding: a replace-around step whose gap is empty and sits at the end of the replaced range
+    (gapFrom == gapTo == to) while part of the slice lies after the insertion point: its map has two touching
+    ranges [from, gapFrom-from, insert] and [gapTo, 0, size-insert]; `map(to, 1)` stops in the first one and
+    lands between the two inserted halves, not after them (StepMap semantics with adjacent ranges, also upstream)."""
+    st = replay.get("step") or {}
+    if st.get("stepType") != "replaceAround":
+        return False
+    if not (st.get("gapFrom") == st.get("gapTo") == st.get("to")):
+        return False
+    return replay.get("pos") == st.get("to")
